@@ -285,7 +285,7 @@ def evaluate(case: Dict[str, Any]) -> Dict[str, Any]:
     return eval_run(case)
 
 
-RESET_CORPUS = [2395, 8095, 8982, 13248, 14512, 15086, 18239, 24406, 25901, 29073]
+from harness.gen import RESET_CORPUS  # noqa: E402
 
 
 def features(r):
